@@ -1,6 +1,7 @@
 (* Props/C18.v -- statements claimed for C18 (conformal maps), about Model/Conformal.v over R. *)
 From Coq Require Import List Arith ZArith Reals.
 From LaPyV Require Import Base.Scalar Base.Vec3 Base.ListAux Base.Sparse Model.TetMesh Model.TriaAdj Model.Conformal Proofs.ConformalP.
+From Coquelicot Require Complex.
 Import ListNotations.
 Open Scope R_scope.
 
@@ -47,3 +48,37 @@ Theorem C18_final_step_unit_and_inverse_of_south_projection : forall mapping,
   forall w : R * R, let p := inverse_south1 Rops w in (vx p / (1 + vz p), vy p / (1 + vz p)) = w.
 Proof. intros mapping. split; [apply scm_final_unit|exact inverse_south_inverts_south_projection]. Qed.
 Print Assumptions C18_final_step_unit_and_inverse_of_south_projection.
+
+(* north-pole stage of spherical_conformal_map: the big triangle is laid out in the plane with the first side from (0,0) to (1,0)
+   and the third corner at (|a.b|, |a x b|) / |a|^2 -- similar to the triangle itself whenever its angle at the first corner is not
+   obtuse -- and every solver meeting its contract reproduces these three positions exactly *)
+Theorem C18_big_triangle_layout : forall p0 p1 p2 : vec3 R,
+  let a := vsub Rops p1 p0 in let b := vsub Rops p2 p0 in
+  dot Rops a a <> 0 -> dot Rops b b <> 0 ->
+  bigtri_third Rops p0 p1 p2 = (Rabs (dot Rops a b) / dot Rops a a, sqrt (dot Rops (cross Rops a b) (cross Rops a b)) / dot Rops a a).
+Proof. exact bigtri_layout_similar. Qed.
+Print Assumptions C18_big_triangle_layout.
+Theorem C18_big_triangle_corners_pinned : forall csolve, csolve_contract csolve ->
+  forall (A : coo R) n p0 p1 p2 (third : R * R) x,
+  NoDup [p0; p1; p2] -> (p0 < n)%nat -> (p1 < n)%nat -> (p2 < n)%nat ->
+  csolve n (north_system Rops A [p0; p1; p2]) (north_rhs Rops n p0 p1 p2 third) = Ok x ->
+  nth p0 x (0, 0) = (0, 0) /\ nth p1 x (0, 0) = (1, 0) /\ nth p2 x (0, 0) = third.
+Proof. exact north_corners_pinned. Qed.
+Print Assumptions C18_big_triangle_corners_pinned.
+
+(* mobius_area_correction_spherical returns, for whatever parameters the optimiser finds, a Moebius image of its input:
+   unit vectors, and the cross-ratio (in the stereographic plane) of any four input points is kept *)
+Theorem C18_mobius_result_on_unit_sphere : forall ca cb cc cd mapping,
+  Forall (fun p => dot Rops p p = 1) (mobius_result Rops ca cb cc cd mapping).
+Proof. exact mobius_result_unit. Qed.
+Print Assumptions C18_mobius_result_on_unit_sphere.
+Theorem C18_mobius_result_keeps_cross_ratios : forall (ca cb cc cd : R * R) (u1 u2 u3 u4 : vec3 R),
+  let st := stereographic1 Rops in
+  let im u := inverse_stereographic1 Rops (mobius1 Rops ca cb cc cd (st u)) in
+  Complex.Cminus (Complex.Cmult ca cd) (Complex.Cmult cb cc) <> Complex.RtoC 0 ->
+  Complex.Cplus (Complex.Cmult cc (st u1)) cd <> Complex.RtoC 0 -> Complex.Cplus (Complex.Cmult cc (st u2)) cd <> Complex.RtoC 0 ->
+  Complex.Cplus (Complex.Cmult cc (st u3)) cd <> Complex.RtoC 0 -> Complex.Cplus (Complex.Cmult cc (st u4)) cd <> Complex.RtoC 0 ->
+  st u1 <> st u4 -> st u2 <> st u3 ->
+  cross_ratio (st (im u1)) (st (im u2)) (st (im u3)) (st (im u4)) = cross_ratio (st u1) (st u2) (st u3) (st u4).
+Proof. exact mobius_result_cross_ratio. Qed.
+Print Assumptions C18_mobius_result_keeps_cross_ratios.
